@@ -15,69 +15,157 @@ theorem parsePackage_spec : T src Tr parsePackage (fun id _ => RealIdent src id)
   · exact T.pure _ (fun _ _ => hid)
   · hoare
 
-theorem parseImportSpec_spec : T src Tr parseImportSpec (fun _ _ => True) := by
-  unfold parseImportSpec
-  hoare
+/-- an import spec all of whose leaves are tokens of the source: the path a string literal, the name (if any)
+    an identifier or the `.` -/
+def RealImport (src : Array Char) (i : Import) : Prop :=
+  RealStr src i.path ∧ ∀ nm, i.name = some nm →
+    (RealIdent src nm ∨ (nm.name = "." ∧ RealTok src nm.pos (.operator .Dot)))
 
-theorem importLoop_spec : ∀ fuel acc, T src Tr (importLoop fuel acc) (fun _ _ => True) := by
+theorem parseImportSpec_spec : T src Tr parseImportSpec (fun i _ => RealImport src i) := by
+  unfold parseImportSpec
+  dsimp only
+  refine T.bindP takeCurrent_spec ⟨fun cur hcur => ?_⟩
+  split
+  · rename_i pos tok
+    refine T.bind (T.anyQ next_spec) (fun _ => ?_)
+    split
+    · rename_i name
+      refine T.bindP (T.anyQ stringLiteral_spec) ⟨fun path hpath => ?_⟩
+      exact T.pure _ (fun _ _ => ⟨hpath, fun nm h => by cases h; exact Or.inl ⟨name, rfl, hcur _ _ rfl⟩⟩)
+    · refine T.bindP (T.anyQ stringLiteral_spec) ⟨fun path hpath => ?_⟩
+      exact T.pure _ (fun _ _ => ⟨hpath, fun nm h => by cases h; exact Or.inr ⟨rfl, hcur _ _ rfl⟩⟩)
+    · rename_i value
+      exact T.pure _ (fun _ _ => ⟨⟨value, rfl, hcur _ _ rfl⟩, fun nm h => by cases h⟩)
+    · hoare
+  · hoare
+
+theorem importLoop_spec : ∀ fuel acc, (∀ i ∈ acc, RealImport src i) →
+    T src Tr (importLoop fuel acc) (fun l _ => ∀ i ∈ l, RealImport src i) := by
   intro fuel
   induction fuel with
-  | zero => intro acc; unfold importLoop; exact T.throw _ (fun _ _ => trivial)
-  | succ n ih => intro acc; unfold importLoop; hloop ih
+  | zero => intro acc _; unfold importLoop; exact T.throw _ (fun _ _ => trivial)
+  | succ n ih =>
+    intro acc hacc
+    unfold importLoop
+    refine T.bind (currentIs_spec _) (fun b => ?_)
+    refine T.ite (fun _ => ?_) (fun _ => T.pure _ (fun _ _ => hacc))
+    refine T.bindP (T.anyQ parseImportSpec_spec) ⟨fun i hi => ?_⟩
+    refine T.bind (T.anyQ (skipped_spec _)) (fun _ => ?_)
+    refine T.anyQ (ih _ ?_)
+    intro x hx
+    simp only [List.mem_append, List.mem_singleton] at hx
+    rcases hx with hx | rfl
+    · exact hacc x hx
+    · exact hi
 
-theorem parseImportDecl_spec : T src Tr parseImportDecl (fun _ _ => True) := by
+theorem parseImportDecl_spec : T src Tr parseImportDecl (fun l _ => ∀ i ∈ l, RealImport src i) := by
   unfold parseImportDecl
-  hoare
+  refine T.bind (T.anyQ (expect_spec _ _)) (fun _ => ?_)
+  refine T.bind (T.anyQ (skipped_spec _)) (fun b => ?_)
+  refine T.ite (fun _ => ?_) (fun _ => ?_)
+  · refine T.bind loopFuel_spec (fun fuel => ?_)
+    refine T.bindP (T.anyQ (importLoop_spec _ _ (by intro _ h; cases h))) ⟨fun imports himp => ?_⟩
+    refine T.bind (T.anyQ (expect_spec _ _)) (fun _ => ?_)
+    exact T.pure _ (fun _ _ => himp)
+  · refine T.bindP (T.anyQ parseImportSpec_spec) ⟨fun i hi => ?_⟩
+    exact T.pure _ (fun _ _ => by intro x hx; simp only [List.mem_singleton] at hx; subst hx; exact hi)
 
 /-! ### declarations -/
 
 set_option maxHeartbeats 1000000 in
-theorem parseFuncDeclBody_spec : T src Tr (parseFuncDeclBody r) (fun _ _ => True) := by
+theorem parseFuncDeclBody_spec : T src Tr (parseFuncDeclBody r) (fun d _ => FuncDeclReal src d) := by
   unfold parseFuncDeclBody
   hoare
 
-theorem parseDeclGeneric_go_spec {S : Type} (parseSpec : Nat → P S) (hs : ∀ i, T src Tr (parseSpec i) (fun _ _ => True)) :
-    ∀ fuel index acc, T src Tr (parseDeclGeneric.go parseSpec fuel index acc) (fun _ _ => True) := by
+theorem parseDeclGeneric_go_spec {S : Type} (parseSpec : Nat → P S) (Qs : S → Prop)
+    (hs : ∀ i, T src Tr (parseSpec i) (fun sp _ => Qs sp)) :
+    ∀ fuel index acc, (∀ sp ∈ acc, Qs sp) →
+      T src Tr (parseDeclGeneric.go parseSpec fuel index acc) (fun l _ => ∀ sp ∈ l, Qs sp) := by
   intro fuel
   induction fuel with
-  | zero => intro index acc; unfold parseDeclGeneric.go; exact T.throw _ (fun _ _ => trivial)
+  | zero => intro index acc _; unfold parseDeclGeneric.go; exact T.throw _ (fun _ _ => trivial)
   | succ n ih =>
-    intro index acc
+    intro index acc hacc
     unfold parseDeclGeneric.go
-    hoare
-    all_goals first | exact T.anyQ (hs _) | exact T.anyQ (ih _ _) | skip
-    hoare
-    all_goals first | exact T.anyQ (hs _) | exact T.anyQ (ih _ _) | skip
+    refine T.bind (currentIs_spec _) (fun b => ?_)
+    refine T.ite (fun _ => ?_) (fun _ => T.pure _ (fun _ _ => hacc))
+    refine T.bindP (T.anyQ (hs _)) ⟨fun sp hsp => ?_⟩
+    refine T.bind (T.anyQ (skipped_spec _)) (fun _ => ?_)
+    refine T.anyQ (ih _ _ ?_)
+    intro x hx
+    simp only [List.mem_append, List.mem_singleton] at hx
+    rcases hx with hx | rfl
+    · exact hacc x hx
+    · exact hsp
 
-theorem parseDeclGeneric_spec {S : Type} (parseSpec : Nat → P S) (withDocs : S → List Comment → S)
-    (hs : ∀ i, T src Tr (parseSpec i) (fun _ _ => True)) :
-    T src Tr (parseDeclGeneric parseSpec withDocs) (fun _ _ => True) := by
+/-- `parse_decl`: the documentation of the declaration is made of source comments, and every spec satisfies
+    what the spec parser guarantees (also the single spec that takes over the declaration's documentation) -/
+theorem parseDeclGeneric_spec {S : Type} (parseSpec : Nat → P S) (withDocs : S → List Comment → S) (Qs : S → Prop)
+    (hs : ∀ i, T src Tr (parseSpec i) (fun sp _ => Qs sp))
+    (hwd : ∀ sp docs, Qs sp → (∀ c ∈ docs, RealComment src c) → Qs (withDocs sp docs)) :
+    T src Tr (parseDeclGeneric parseSpec withDocs)
+      (fun x _ => (∀ c ∈ x.1, RealComment src c) ∧ ∀ sp ∈ x.2.2.2, Qs sp) := by
   unfold parseDeclGeneric
-  hoare
-  all_goals first | exact T.anyQ (hs _) | exact T.anyQ (parseDeclGeneric_go_spec parseSpec hs _ _ _) | skip
-  hoare
-  all_goals first | exact T.anyQ (hs _) | exact T.anyQ (parseDeclGeneric_go_spec parseSpec hs _ _ _) | skip
-  hoare
+  refine T.bind currentPos_spec (fun pos0 => ?_)
+  refine T.bindP (T.anyQ drainComments_spec) ⟨fun docs hdocs => ?_⟩
+  refine T.bind (T.anyQ next_spec) (fun _ => ?_)
+  refine T.bind (T.anyQ (currentIs_spec _)) (fun b => ?_)
+  refine T.ite (fun _ => ?_) (fun _ => ?_)
+  · refine T.bind (T.anyQ (expect_spec _ _)) (fun left => ?_)
+    refine T.bind loopFuel_spec (fun fuel => ?_)
+    refine T.bindP (T.anyQ (parseDeclGeneric_go_spec parseSpec Qs hs _ _ _ (by intro _ h; cases h))) ⟨fun specs hspecs => ?_⟩
+    refine T.bind (T.anyQ (expect_spec _ _)) (fun right => ?_)
+    refine T.bind (T.anyQ (skipped_spec _)) (fun _ => ?_)
+    exact T.pure _ (fun _ _ => ⟨hdocs, hspecs⟩)
+  · refine T.bindP (T.anyQ (hs 0)) ⟨fun sp hsp => ?_⟩
+    refine T.bind (T.anyQ (skipped_spec _)) (fun _ => ?_)
+    refine T.pure _ (fun _ _ => ⟨(by intro _ h; cases h), ?_⟩)
+    intro x hx
+    simp only [List.mem_singleton] at hx
+    subst hx
+    exact hwd sp docs hsp hdocs
 
-theorem parseDeclVarBody_spec : T src Tr (parseDeclVarBody r) (fun _ _ => True) := by
+theorem parseDeclVarBody_spec : T src Tr (parseDeclVarBody r) (fun d _ => DeclVarReal src d) := by
   unfold parseDeclVarBody
-  exact T.bind (parseDeclGeneric_spec _ _ (fun _ => TblOK.parseVarSpec)) (fun _ => T.pure _ (fun _ _ => trivial))
+  refine T.bindP (parseDeclGeneric_spec _ _ (VarSpecReal src) (fun _ => TblOK.parseVarSpec) ?_) ⟨fun x hx => ?_⟩
+  · intro sp docs hsp hdocs
+    cases sp
+    simp only [VarSpecReal] at hsp ⊢
+    exact ⟨hsp.1, hdocs⟩
+  · obtain ⟨d, p0, p1, s⟩ := x
+    exact T.pure _ (fun _ _ => hx)
 
-theorem parseDeclTypeBody_spec : T src Tr (parseDeclTypeBody r) (fun _ _ => True) := by
+theorem parseDeclTypeBody_spec : T src Tr (parseDeclTypeBody r) (fun d _ => DeclTypeReal src d) := by
   unfold parseDeclTypeBody
-  exact T.bind (parseDeclGeneric_spec _ _ (fun _ => TblOK.parseTypeSpec)) (fun _ => T.pure _ (fun _ _ => trivial))
+  refine T.bindP (parseDeclGeneric_spec _ _ (TypeSpecReal src) (fun _ => TblOK.parseTypeSpec) ?_) ⟨fun x hx => ?_⟩
+  · intro sp docs hsp hdocs
+    cases sp
+    simp only [TypeSpecReal] at hsp ⊢
+    exact ⟨hsp.1, hdocs⟩
+  · obtain ⟨d, p0, p1, s⟩ := x
+    exact T.pure _ (fun _ _ => hx)
 
-theorem parseDeclConstBody_spec : T src Tr (parseDeclConstBody r) (fun _ _ => True) := by
+theorem parseDeclConstBody_spec : T src Tr (parseDeclConstBody r) (fun d _ => DeclConstReal src d) := by
   unfold parseDeclConstBody
-  exact T.bind (parseDeclGeneric_spec _ _ (fun i => TblOK.parseConstSpec i)) (fun _ => T.pure _ (fun _ _ => trivial))
+  refine T.bindP (parseDeclGeneric_spec _ _ (ConstSpecReal src) (fun i => TblOK.parseConstSpec i) ?_) ⟨fun x hx => ?_⟩
+  · intro sp docs hsp hdocs
+    cases sp
+    simp only [ConstSpecReal] at hsp ⊢
+    exact ⟨hsp.1, hdocs⟩
+  · obtain ⟨d, p0, p1, s⟩ := x
+    exact T.pure _ (fun _ _ => hx)
 
-theorem parseVarSpecBody_spec : T src Tr (parseVarSpecBody r) (fun _ _ => True) := by
+theorem parseVarSpecBody_spec : T src Tr (parseVarSpecBody r) (fun sp _ => VarSpecReal src sp) := by
   unfold parseVarSpecBody
+  refine T.bindP drainComments_spec ⟨fun docs hdocs => ?_⟩
+  refine T.bindP (T.anyQ identifierList_none_spec) ⟨fun name hname => ?_⟩
   hoare
 
 set_option maxHeartbeats 1000000 in
-theorem parseConstSpecBody_spec (i : Nat) : T src Tr (parseConstSpecBody r i) (fun _ _ => True) := by
+theorem parseConstSpecBody_spec (i : Nat) : T src Tr (parseConstSpecBody r i) (fun sp _ => ConstSpecReal src sp) := by
   unfold parseConstSpecBody
+  refine T.bindP drainComments_spec ⟨fun docs hdocs => ?_⟩
+  refine T.bindP (T.anyQ identifierList_none_spec) ⟨fun name hname => ?_⟩
   hoare
 
 /-! ### types -/
@@ -205,7 +293,7 @@ theorem extract_lost_absurd {e : Expression} {f : Bool}
 set_option maxHeartbeats 2000000 in
 /-- `panic!("extract lost")` (parser.rs, parse_type_spec) is not reached (`C03.extract_never_lost`), and
     both backtracking marks are good -/
-theorem parseTypeSpecBody_spec : T src Tr (parseTypeSpecBody r) (fun _ _ => True) := by
+theorem parseTypeSpecBody_spec : T src Tr (parseTypeSpecBody r) (fun sp _ => TypeSpecReal src sp) := by
   unfold parseTypeSpecBody
   hoare
   all_goals exact (extract_lost_absurd ‹_›).elim
